@@ -86,6 +86,7 @@ type Rule struct {
 	Threads       float64 `json:"threads,omitempty"` // split: request for chunks
 	MemGB         float64 `json:"mem_gb,omitempty"`
 	Chunks        int    `json:"chunks,omitempty"` // split: force chunk count (+1; 0 = hash)
+	Bools         string `json:"bools,omitempty"`  // "true" / "false": every bool output leaf of the job has this value
 }
 
 type Spec struct {
@@ -112,6 +113,8 @@ type Spec struct {
 	// Percentage of file outputs that are relative symlinks to an input file
 	// of the job (only used with VDR off: martian does not track such links).
 	PassThroughPct int `json:"pass_through_pct,omitempty"`
+	// Set by the probe from a matching rule: value of every bool leaf.
+	ForceBool *bool `json:"-"`
 	// Side directory for files created outside the pipestance.
 	OutsideDir string `json:"outside_dir,omitempty"`
 	// Arrays produced have distinct elements by construction.
